@@ -132,16 +132,17 @@ func (s *sim) step(op fx.Ev) (string, error) {
 			m = "Trigger"
 		}
 		res, cerr, derr = s.c.call(k, propC, m, timerCallArgs(op.Int("pid")))
-	// the real TDPoS kernel contract; "height" = the ledger height whose snapshot the contract reads
-	// (the current tip, as an up-to-date client passes it)
+	// the real TDPoS kernel contract; "height" = the ledger height whose snapshot the contract reads: the
+	// current tip, as an up-to-date client passes it (the generated behaviours never set "hd"; the probe
+	// uses it to pass an older height)
 	case "tnom": // nominateCandidate(candidate = initiator): Lock(lock_type tdpos)
-		res, cerr, derr = s.c.call(k, tdpC, "nominateCandidate", map[string][]byte{"candidate": []byte(k.Address), "amount": itoa(op.Int("amt")), "height": itoa(s.c.height())})
+		res, cerr, derr = s.c.call(k, tdpC, "nominateCandidate", map[string][]byte{"candidate": []byte(k.Address), "amount": itoa(op.Int("amt")), "height": itoa(s.c.height() - op.Int("hd"))})
 	case "trevnom": // revokeNominate(candidate = initiator): UnLock of the nomination ballot
-		res, cerr, derr = s.c.call(k, tdpC, "revokeNominate", map[string][]byte{"candidate": []byte(k.Address), "height": itoa(s.c.height())})
+		res, cerr, derr = s.c.call(k, tdpC, "revokeNominate", map[string][]byte{"candidate": []byte(k.Address), "height": itoa(s.c.height() - op.Int("hd"))})
 	case "tvote": // voteCandidate: Lock(lock_type tdpos)
-		res, cerr, derr = s.c.call(k, tdpC, "voteCandidate", map[string][]byte{"candidate": []byte(addr(op.Str("cand"))), "amount": itoa(op.Int("amt")), "height": itoa(s.c.height())})
+		res, cerr, derr = s.c.call(k, tdpC, "voteCandidate", map[string][]byte{"candidate": []byte(addr(op.Str("cand"))), "amount": itoa(op.Int("amt")), "height": itoa(s.c.height() - op.Int("hd"))})
 	case "trevoke": // revokeVote: UnLock(lock_type tdpos)
-		res, cerr, derr = s.c.call(k, tdpC, "revokeVote", map[string][]byte{"candidate": []byte(addr(op.Str("cand"))), "amount": itoa(op.Int("amt")), "height": itoa(s.c.height())})
+		res, cerr, derr = s.c.call(k, tdpC, "revokeVote", map[string][]byte{"candidate": []byte(addr(op.Str("cand"))), "amount": itoa(op.Int("amt")), "height": itoa(s.c.height() - op.Int("hd"))})
 	case "tick": // an empty block: only the timer transaction of that height (if any)
 		derr = s.c.mine()
 		res = "ok"
